@@ -206,11 +206,15 @@ func (c *Conn) readLoop(ctx context.Context) (header, error) {
 		}
 
 		if !c.client && !h.masked {
-			return header{}, errors.New("received unmasked frame from client")
+			err := errors.New("received unmasked frame from client")
+			c.writeError(StatusProtocolError, err)
+			return header{}, err
 		}
 
 		if c.client && h.masked {
-			return header{}, errors.New("received masked frame from server")
+			err := errors.New("received masked frame from server")
+			c.writeError(StatusProtocolError, err)
+			return header{}, err
 		}
 
 		switch h.opcode {
